@@ -1020,6 +1020,14 @@ func (rl *Shell) shellKillWord() {
 
 	_, epos := rl.selection.Pos()
 
+	// No word after the cursor (end of line, no valid selection).
+	if epos <= startPos || epos > rl.line.Len() {
+		rl.cursor.Set(startPos)
+		rl.selection.Reset()
+
+		return
+	}
+
 	rl.Buffers.Write([]rune((*rl.line)[startPos:epos])...)
 	rl.line.Cut(startPos, epos)
 	rl.cursor.Set(startPos)
@@ -1050,6 +1058,14 @@ func (rl *Shell) shellBackwardKillWord() {
 	rl.cursor.Set(bpos)
 	rl.cursor.ToFirstNonSpace(true)
 	bpos = rl.cursor.Pos()
+
+	// No word before the cursor.
+	if bpos >= startPos {
+		rl.cursor.Set(startPos)
+		rl.selection.Reset()
+
+		return
+	}
 
 	rl.Buffers.Write([]rune((*rl.line)[bpos:startPos])...)
 	rl.line.Cut(bpos, startPos)
